@@ -62,10 +62,10 @@ type ibtpOp struct {
 	expectAccept bool
 	newStatus    int
 	// filled by seal
-	accepted     bool
-	stBefore     int  // model status right before this op was folded
-	edgeOK       bool // accepted receipt had an edge in the protocol state machine
-	knownBefore  bool // the transaction id was known to the model before this op
+	accepted    bool
+	stBefore    int  // model status right before this op was folded
+	edgeOK      bool // accepted receipt had an edge in the protocol state machine
+	knownBefore bool // the transaction id was known to the model before this op
 }
 
 type ibtpBlock struct {
@@ -110,7 +110,7 @@ func stdPairs(w *sim.World) []*ibtpPair {
 		mk("chainB", "s1", "chainA", "s1", true),
 		mk("chainC", "s1", "chainC", "s1", true), // a service calling itself: source and destination record are one
 		mk("chainA", "s1", "chainC", "s1", true),
-		mk("chainA", "s2", "chainB", "s2", false),   // blacklisted by the destination
+		mk("chainA", "s2", "chainB", "s2", false),    // blacklisted by the destination
 		mk("chainC", "s1", "chainB", "nosvc", false), // destination service does not exist
 		mk("chainA", "s2", "chainB", "s1", true),
 	}
